@@ -1,6 +1,2060 @@
-// stub (replaced)
+// c20.cpp - C20: the C interface (soplex_interface.h) does exactly what the corresponding C++ calls do.
+// A case is a sequence of recs, one per C call.  Every rec is decoded *relative to the current model state*
+// (indices modulo the current dimension, array contents taken cyclically from the rec's value pool), so that
+// removing recs (shrinking, tools/minrecs.py) always leaves a valid client sequence.
+// Oracles after every step: (1) object behind the C handle == twin C++ object driven by the documented C++ calls,
+// (2) LP inside the C object == reference model built from the INPUT arrays, (3) returned values/strings,
+// (4) ASan flavour: every array is a heap block of exactly the length passed.
 #include "spx.hpp"
+#include "soplex_interface.h"
+#include <climits>
+#include <memory>
+
 using namespace vf;
-static void gen(Case& c) {}
-static Verdict run(const Case& c) { Verdict v; return v; }
-int main(int argc, char** argv) { return vfMain(argc, argv, "C20", gen, run); }
+using soplex::Rational;
+using soplex::VectorReal;
+using soplex::VectorRational;
+using soplex::DSVectorReal;
+using soplex::DSVectorRational;
+using soplex::SVectorRational;
+using soplex::LPRowReal;
+using soplex::LPColReal;
+using soplex::LPRowRational;
+using soplex::LPColRational;
+
+// ------------------------------------------------------------------ known findings (generator exclusions)
+static const char* K_OBJSTR = "objvalstr-unterminated";     // SoPlex_objValueRationalString: 1-byte buffer
+static const char* K_ROWVECRAT = "getrowvecrat-null-svector"; // SoPlex_getRowVectorRational: write through null
+static const char* K_SYNCSCALED = "sync-auto-copies-scaled-lp";  // SYNCMODE_AUTO entered while the real LP is persistently scaled
+static const char* K_MISSING = "cread-missing-file-throws";   // read*File on a missing file: exception instead of 0
+static const char* K_MPSFREE = "cwrite-mps-free-row-throws";   // writeFileReal(.mps) with a free row throws (S10)
+static bool known(const char* key)
+{
+   auto it = opts().x.find("known");
+   if(it == opts().x.end()) return false;
+   std::string s = "," + it->second + ",";
+   return s.find(std::string(",") + key + ",") != std::string::npos;
+}
+
+// ------------------------------------------------------------------ exactly sized heap arrays
+template <class T> struct Arr
+{
+   std::unique_ptr<T[]> p;
+   std::vector<T> copy;
+   explicit Arr(const std::vector<T>& v) : p(new T[v.size()]), copy(v)
+   {
+      std::copy(v.begin(), v.end(), p.get());
+   }
+   Arr(size_t n, T fill) : p(new T[n]), copy(n, fill)
+   {
+      std::fill(p.get(), p.get() + n, fill);
+   }
+   T* get()
+   {
+      return p.get();
+   }
+   int n() const
+   {
+      return (int) copy.size();
+   }
+   bool unchanged() const   // bitwise
+   {
+      return copy.empty() || memcmp(p.get(), copy.data(), copy.size() * sizeof(T)) == 0;
+   }
+   bool unchangedFrom(int k) const
+   {
+      return k >= n() || memcmp(p.get() + k, copy.data() + k, (copy.size() - k) * sizeof(T)) == 0;
+   }
+};
+static const double SENT = -7777.25;   // sentinel in output arrays
+static bool sameBits(double a, double b)
+{
+   return memcmp(&a, &b, sizeof a) == 0;
+}
+static bool sameBits(const double* a, const double* b, int n)
+{
+   return n <= 0 || memcmp(a, b, n * sizeof(double)) == 0;
+}
+static Q QL(long num, long den)
+{
+   Q q{mpz_class(num), mpz_class(den)};
+   q.canonicalize();
+   return q;
+}
+static bool fitsLong(const Q& q)
+{
+   return q.get_num().fits_slong_p() && q.get_den().fits_slong_p();
+}
+
+// ------------------------------------------------------------------ reference model
+struct Model
+{
+   LP lp;               // exact source values of everything the client passed
+   bool sync = false;   // SYNCMODE_AUTO: a rational LP exists and mirrors every change
+   std::map<int, int> expI;
+   std::map<int, int> expB;
+   std::map<int, double> expR;
+   void clear()
+   {
+      int s = lp.sense;
+      Q off = lp.offset;
+      lp = LP();
+      lp.sense = s;
+      lp.offset = off;
+   }
+   void removeRow(int i)   // SVSet semantics: the last row moves to position i
+   {
+      int l = lp.m() - 1;
+      lp.lhs[i] = lp.lhs[l];
+      lp.rhs[i] = lp.rhs[l];
+      lp.A[i] = lp.A[l];
+      lp.lhs.pop_back();
+      lp.rhs.pop_back();
+      lp.A.pop_back();
+   }
+   void removeCol(int j)
+   {
+      int l = lp.n() - 1;
+      lp.lo[j] = lp.lo[l];
+      lp.up[j] = lp.up[l];
+      lp.obj[j] = lp.obj[l];
+      lp.lo.pop_back();
+      lp.up.pop_back();
+      lp.obj.pop_back();
+      for(auto& r : lp.A)
+      {
+         r[j] = r[l];
+         r.pop_back();
+      }
+   }
+};
+// a double held by SoPlex versus the exact source value the client passed: exact when the source is a double,
+// within one ulp (relative 2^-52) when a rational had to be rounded; infinities are +-1e100
+static bool okReal(double d, const Q& src)
+{
+   if(std::isnan(d)) return false;
+   if(isPInf(src)) return d >= 1e100;
+   if(isNInf(src)) return d <= -1e100;
+   if(!(d > -1e100 && d < 1e100)) return false;
+   Q v(d);
+   if(isDyadicDouble(src)) return v == src;
+   return qabs(v - src) <= qabs(src) * q2pow(-52);
+}
+
+// is the real LP stored in scaled form (persistent scaling after a solve)?  Observed through public accessors only:
+// the *Internal getters return the stored data, the plain getters the unscaled data.
+static bool storedScaled(SoPlex& o)
+{
+   int m = o.numRows(), n = o.numCols();
+   for(int i = 0; i < m; i++)
+   {
+      if(!sameBits(o.lhsRealInternal()[i], o.lhsReal(i)) || !sameBits(o.rhsRealInternal()[i], o.rhsReal(i))) return true;
+      DSVectorReal r;
+      o.getRowVectorReal(i, r);
+      const soplex::SVectorReal& s = o.rowVectorRealInternal(i);
+      if(s.size() != r.size()) return true;
+      for(int k = 0; k < r.size(); k++) if(s.index(k) != r.index(k) || !sameBits(s.value(k), r.value(k))) return true;
+   }
+   for(int j = 0; j < n; j++)
+      if(!sameBits(o.lowerRealInternal()[j], o.lowerReal(j)) || !sameBits(o.upperRealInternal()[j], o.upperReal(j))
+            || !sameBits(o.maxObjRealInternal()[j], o.maxObjReal(j))) return true;
+   return false;
+}
+// LP inside the object equals the model (oracle 2)
+static std::string cmpModel(SoPlex& o, const Model& M)
+{
+   const LP& lp = M.lp;
+   int m = lp.m(), n = lp.n();
+   if(o.numRows() != m) return "numRows";
+   if(o.numCols() != n) return "numCols";
+   if(o.intParam(SoPlex::OBJSENSE) != lp.sense) return "objective sense";
+   if(!okReal(o.realParam(SoPlex::OBJ_OFFSET), lp.offset)) return "objective offset";
+   for(int j = 0; j < n; j++)
+   {
+      if(!okReal(o.lowerReal(j), lp.lo[j])) return "real lower bound";
+      if(!okReal(o.upperReal(j), lp.up[j])) return "real upper bound";
+      if(!okReal(o.objReal(j), lp.obj[j])) return "real objective coefficient";
+   }
+   for(int i = 0; i < m; i++)
+   {
+      if(!okReal(o.lhsReal(i), lp.lhs[i])) return "real left-hand side";
+      if(!okReal(o.rhsReal(i), lp.rhs[i])) return "real right-hand side";
+      DSVectorReal r;
+      o.getRowVectorReal(i, r);
+      std::vector<double> d(n, 0.0);
+      std::vector<char> seen(n, 0);
+      for(int k = 0; k < r.size(); k++)
+      {
+         int j = r.index(k);
+         if(j < 0 || j >= n || seen[j]) return "real row vector index";
+         seen[j] = 1;
+         d[j] = r.value(k);
+      }
+      for(int j = 0; j < n; j++) if(!okReal(d[j], lp.A[i][j])) return "real row coefficient (have " + qstr(qd(d[j])) + " want " + qstr(lp.A[i][j]) + ")";
+   }
+   for(int j = 0; j < n; j++)
+   {
+      DSVectorReal c;
+      o.getColVectorReal(j, c);
+      std::vector<double> d(m, 0.0);
+      std::vector<char> seen(m, 0);
+      for(int k = 0; k < c.size(); k++)
+      {
+         int i = c.index(k);
+         if(i < 0 || i >= m || seen[i]) return "real column vector index";
+         seen[i] = 1;
+         d[i] = c.value(k);
+      }
+      for(int i = 0; i < m; i++) if(!okReal(d[i], lp.A[i][j])) return "real column coefficient (have " + qstr(qd(d[i])) + " want " + qstr(lp.A[i][j]) + ")";
+   }
+   for(auto& kv : M.expI) if(o.intParam((SoPlex::IntParam) kv.first) != kv.second) return "int parameter value";
+   for(auto& kv : M.expB) if((int) o.boolParam((SoPlex::BoolParam) kv.first) != kv.second) return "bool parameter value";
+   for(auto& kv : M.expR) if(!sameBits(o.realParam((SoPlex::RealParam) kv.first), kv.second)) return "real parameter value";
+   if(M.sync)
+   {
+      if(o.intParam(SoPlex::SYNCMODE) != SoPlex::SYNCMODE_AUTO) return "sync mode";
+      if(o.numRowsRational() != m) return "numRowsRational";
+      if(o.numColsRational() != n) return "numColsRational";
+      for(int j = 0; j < n; j++)
+      {
+         if(qr(o.lowerRational(j)) != lp.lo[j]) return "rational lower bound";
+         if(qr(o.upperRational(j)) != lp.up[j]) return "rational upper bound";
+         if(qr(o.objRational(j)) != lp.obj[j]) return "rational objective coefficient";
+      }
+      for(int i = 0; i < m; i++)
+      {
+         if(qr(o.lhsRational(i)) != lp.lhs[i]) return "rational left-hand side (have " + qstr(qr(o.lhsRational(i))) + " want " + qstr(lp.lhs[i]) + ")";
+         if(qr(o.rhsRational(i)) != lp.rhs[i]) return "rational right-hand side (have " + qstr(qr(o.rhsRational(i))) + " want " + qstr(lp.rhs[i]) + ")";
+         const SVectorRational& r = o.rowVectorRational(i);
+         std::vector<Q> d(n, Q(0));
+         for(int k = 0; k < r.size(); k++)
+         {
+            int j = r.index(k);
+            if(j < 0 || j >= n) return "rational row vector index";
+            d[j] += qr(r.value(k));
+         }
+         for(int j = 0; j < n; j++) if(d[j] != lp.A[i][j]) return "rational row coefficient (have " + qstr(d[j]) + " want " + qstr(lp.A[i][j]) + ")";
+      }
+      for(int j = 0; j < n; j++)
+      {
+         const SVectorRational& c = o.colVectorRational(j);
+         std::vector<Q> d(m, Q(0));
+         for(int k = 0; k < c.size(); k++)
+         {
+            int i = c.index(k);
+            if(i < 0 || i >= m) return "rational column vector index";
+            d[i] += qr(c.value(k));
+         }
+         for(int i = 0; i < m; i++) if(d[i] != lp.A[i][j]) return "rational column coefficient";
+      }
+   }
+   return "";
+}
+
+// re-anchor the model on the real LP held by the object (used when rationals were rounded and the rational LP is
+// dropped, and after a failed file read whose effect on the LP is undocumented)
+static void anchor(SoPlex& o, Model& M)
+{
+   int m = o.numRows(), n = o.numCols();
+   LP& lp = M.lp;
+   int s = lp.sense;
+   Q off = lp.offset;
+   lp.resize(m, n);
+   lp.sense = s;
+   lp.offset = off;
+   for(int j = 0; j < n; j++)
+   {
+      lp.lo[j] = qd(o.lowerReal(j));
+      lp.up[j] = qd(o.upperReal(j));
+      lp.obj[j] = qd(o.objReal(j));
+   }
+   for(int i = 0; i < m; i++)
+   {
+      lp.lhs[i] = qd(o.lhsReal(i));
+      lp.rhs[i] = qd(o.rhsReal(i));
+      DSVectorReal r;
+      o.getRowVectorReal(i, r);
+      for(int k = 0; k < r.size(); k++) lp.A[i][r.index(k)] = qd(r.value(k));
+   }
+}
+
+static bool eqVR(const VectorRational& a, const VectorRational& b)
+{
+   if(a.dim() != b.dim()) return false;
+   for(int i = 0; i < a.dim(); i++) if(a[i] != b[i]) return false;
+   return true;
+}
+// object behind the C handle == twin (oracle 1); the same observer calls are issued on both objects
+static std::string cmpObjects(SoPlex& a, SoPlex& b)
+{
+   if(a.numRows() != b.numRows()) return "numRows";
+   if(a.numCols() != b.numCols()) return "numCols";
+   int m = a.numRows(), n = a.numCols();
+   for(int p = 0; p < SoPlex::INTPARAM_COUNT; p++)
+      if(a.intParam((SoPlex::IntParam) p) != b.intParam((SoPlex::IntParam) p)) return "int parameter";
+   for(int p = 0; p < SoPlex::BOOLPARAM_COUNT; p++)
+      if(a.boolParam((SoPlex::BoolParam) p) != b.boolParam((SoPlex::BoolParam) p)) return "bool parameter";
+   for(int p = 0; p < SoPlex::REALPARAM_COUNT; p++)
+      if(!sameBits(a.realParam((SoPlex::RealParam) p), b.realParam((SoPlex::RealParam) p))) return "real parameter";
+   for(int j = 0; j < n; j++)
+   {
+      if(!sameBits(a.lowerReal(j), b.lowerReal(j))) return "lower bound";
+      if(!sameBits(a.upperReal(j), b.upperReal(j))) return "upper bound";
+      if(!sameBits(a.objReal(j), b.objReal(j))) return "objective coefficient";
+   }
+   for(int i = 0; i < m; i++)
+   {
+      if(!sameBits(a.lhsReal(i), b.lhsReal(i))) return "left-hand side";
+      if(!sameBits(a.rhsReal(i), b.rhsReal(i))) return "right-hand side";
+      DSVectorReal ra, rb;
+      a.getRowVectorReal(i, ra);
+      b.getRowVectorReal(i, rb);
+      if(ra.size() != rb.size()) return "row vector size";
+      for(int k = 0; k < ra.size(); k++)
+         if(ra.index(k) != rb.index(k) || !sameBits(ra.value(k), rb.value(k))) return "row vector entry";
+   }
+   bool rat = a.intParam(SoPlex::SYNCMODE) != SoPlex::SYNCMODE_ONLYREAL;
+   if(rat)
+   {
+      if(a.numRowsRational() != b.numRowsRational()) return "numRowsRational";
+      if(a.numColsRational() != b.numColsRational()) return "numColsRational";
+      int mr = a.numRowsRational(), nr = a.numColsRational();
+      for(int j = 0; j < nr; j++)
+      {
+         if(a.lowerRational(j) != b.lowerRational(j)) return "rational lower bound";
+         if(a.upperRational(j) != b.upperRational(j)) return "rational upper bound";
+         if(a.objRational(j) != b.objRational(j)) return "rational objective coefficient";
+      }
+      for(int i = 0; i < mr; i++)
+      {
+         if(a.lhsRational(i) != b.lhsRational(i)) return "rational left-hand side";
+         if(a.rhsRational(i) != b.rhsRational(i)) return "rational right-hand side";
+         const SVectorRational& ra = a.rowVectorRational(i);
+         const SVectorRational& rb = b.rowVectorRational(i);
+         if(ra.size() != rb.size()) return "rational row vector size";
+         for(int k = 0; k < ra.size(); k++)
+            if(ra.index(k) != rb.index(k) || ra.value(k) != rb.value(k)) return "rational row vector entry";
+      }
+   }
+   if((int) a.status() != (int) b.status()) return "status()";
+   if(a.hasBasis() != b.hasBasis()) return "hasBasis()";
+   for(int i = 0; i < m; i++) if((int) a.basisRowStatus(i) != (int) b.basisRowStatus(i)) return "basis row status";
+   for(int j = 0; j < n; j++) if((int) a.basisColStatus(j) != (int) b.basisColStatus(j)) return "basis column status";
+   if(a.numIterations() != b.numIterations()) return "numIterations()";
+   if(a.hasSol() != b.hasSol()) return "hasSol()";
+   if(a.isPrimalFeasible() != b.isPrimalFeasible()) return "isPrimalFeasible()";
+   if(a.isDualFeasible() != b.isDualFeasible()) return "isDualFeasible()";
+   if(a.hasPrimalRay() != b.hasPrimalRay()) return "hasPrimalRay()";
+   if(a.hasDualFarkas() != b.hasDualFarkas()) return "hasDualFarkas()";
+   {
+      VectorReal xa(n), xb(n), da(n), db(n), ya(m), yb(m), sa(m), sb(m);
+      if(a.getPrimal(xa) != b.getPrimal(xb) || !sameBits(xa.get_const_ptr(), xb.get_const_ptr(), n)) return "primal solution";
+      if(a.getSlacksReal(sa) != b.getSlacksReal(sb) || !sameBits(sa.get_const_ptr(), sb.get_const_ptr(), m)) return "slacks";
+      if(a.getDual(ya) != b.getDual(yb) || !sameBits(ya.get_const_ptr(), yb.get_const_ptr(), m)) return "dual solution";
+      if(a.getRedCost(da) != b.getRedCost(db) || !sameBits(da.get_const_ptr(), db.get_const_ptr(), n)) return "reduced costs";
+      VectorReal pa(n), pb(n), fa(m), fb(m);
+      if(a.getPrimalRay(pa) != b.getPrimalRay(pb) || !sameBits(pa.get_const_ptr(), pb.get_const_ptr(), n)) return "primal ray";
+      if(a.getDualFarkas(fa) != b.getDualFarkas(fb) || !sameBits(fa.get_const_ptr(), fb.get_const_ptr(), m)) return "Farkas vector";
+   }
+   if(!sameBits(a.objValueReal(), b.objValueReal())) return "objValueReal()";
+   if(rat)
+   {
+      int mr = a.numRowsRational(), nr = a.numColsRational();
+      VectorRational xa(nr), xb(nr), ya(mr), yb(mr);
+      if(a.getPrimalRational(xa) != b.getPrimalRational(xb) || !eqVR(xa, xb)) return "rational primal solution";
+      if(a.getDualRational(ya) != b.getDualRational(yb) || !eqVR(ya, yb)) return "rational dual solution";
+   }
+   if(a.objValueRational() != b.objValueRational()) return "objValueRational()";
+   return "";
+}
+
+// ------------------------------------------------------------------ generator
+static Q gval()   // finite value that is exactly a double
+{
+   switch(W({40, 25, 15, 12, 8}))
+   {
+   case 0: return Q(R(-9, 9));
+   case 1: return Q(NZ(20)) * q2pow(-R(1, 4));
+   case 2: return Q(0);
+   case 3: return Q(NZ(1000));
+   default: return Q(NZ(7)) * q2pow(R(20, 40));
+   }
+}
+static Q gentry()
+{
+   return P(35) ? Q(0) : gval();
+}
+static Q glow()
+{
+   int k = W({40, 30, 30});
+   return k == 0 ? Q(0) : k == 1 ? Q(-QINF()) : Q(-qabs(gval()));
+}
+static Q gupp()
+{
+   int k = W({40, 60});
+   return k == 0 ? QINF() : qabs(gval());
+}
+static void gpair(Q& l, Q& u)   // l <= u except in 4% (inverted bounds are legal input: an infeasible LP)
+{
+   l = glow();
+   u = gupp();
+   if(P(15)) u = l = gval();
+   else if(P(10) && isFin(l)) u = l + qabs(gval());
+   if(P(4))
+   {
+      l = Q(2);
+      u = Q(1);
+   }
+}
+static long gnum()
+{
+   static const long big[] = {LONG_MAX, LONG_MIN, LONG_MIN + 1, 1L << 62, -(1L << 62), 4611686018427387905L, -3037000499L * 3037000499L, 1L << 53, (1L << 53) + 1};
+   switch(W({72, 14, 14}))
+   {
+   case 0: return R(-9, 9);
+   case 1: return NZ(1000000);
+   default: return big[R(0, 8)];
+   }
+}
+static long gden()
+{
+   static const long big[] = {LONG_MAX, 1L << 62, 1000000007L, (1L << 53) + 1};
+   switch(W({50, 25, 15, 10}))
+   {
+   case 0: return 1;
+   case 1: return R(2, 9);
+   case 2: return 1L << R(1, 40);
+   default: return big[R(0, 3)];
+   }
+}
+static void gratpair(long& ln, long& ld, long& un, long& ud)   // rational lb <= ub (4% inverted)
+{
+   ln = gnum();
+   ld = gden();
+   un = gnum();
+   ud = gden();
+   if(P(15))
+   {
+      un = ln;
+      ud = ld;
+   }
+   bool inv = P(4);
+   if((QL(ln, ld) > QL(un, ud)) != inv)
+   {
+      std::swap(ln, un);
+      std::swap(ld, ud);
+   }
+}
+static void poolQ(Rec& r, int k, Q(*g)())
+{
+   for(int i = 0; i < std::max(1, k); i++) r.addq(g());
+}
+static void poolRat(Rec& r, int k, bool entries)
+{
+   for(int i = 0; i < std::max(1, k); i++)
+   {
+      long nm = (entries && P(35)) ? 0 : gnum();
+      r.add(nm).add(gden());
+   }
+}
+static Q dblQ(double d)   // exact text of a double parameter value
+{
+   return qd(d);
+}
+
+// valid values for the parameters, drawn from the enums / the static range tables
+static void genIntParam(Rec& r, bool forFile)
+{
+   typedef SoPlex S;
+   auto& t = S::Settings::intParam;
+   int code;
+   do
+   {
+      code = R(0, S::INTPARAM_COUNT - 1);
+   }
+   while(code == S::SYNCMODE && forFile);
+   int v;
+   switch(code)
+   {
+   case S::OBJSENSE: v = P(50) ? 1 : -1; break;
+   case S::VERBOSITY: v = R(0, 1); break;
+   case S::SYNCMODE: v = R(0, 1); break;      // MANUAL needs syncLPReal/syncLPRational, which the C interface lacks
+   case S::ITERLIMIT:
+   {
+      static const int c[] = {-1, 10000, 50, 3, 1, 0};
+      v = c[R(0, 5)];
+      break;
+   }
+   case S::SIMPLIFIER:
+   {
+      static const int c[] = {1, 0, 2, 3};   // AUTO, OFF, INTERNAL, PAPILO (rejected in a build without PaPILO)
+      v = c[R(0, forFile ? 2 : 3)];
+      break;
+   }
+   default:
+      if(t.upper[code] - (long) t.lower[code] <= 8) v = R(t.lower[code], t.upper[code]);
+      else
+      {
+         int k = R(0, 5);
+         long c[] = {t.defaultValue[code], t.lower[code], (long) t.lower[code] + 1, 5, 100, t.upper[code]};
+         v = (int) std::min<long>(std::max<long>(c[k], t.lower[code]), t.upper[code]);
+      }
+   }
+   r.add(code).add(v);
+}
+static void genBoolParam(Rec& r)
+{
+   r.add(R(0, SoPlex::BOOLPARAM_COUNT - 1)).add(R(0, 1));
+}
+static void genRealParam(Rec& r)
+{
+   typedef SoPlex S;
+   auto& t = S::Settings::realParam;
+   int code = R(0, S::REALPARAM_COUNT - 1);
+   double v;
+   switch(code)
+   {
+   case S::FEASTOL:
+   case S::OPTTOL:
+   {
+      static const double c[] = {1e-6, 1e-9, 1e-4, 0.0, 1e-12};
+      v = c[R(0, 4)];
+      break;
+   }
+   case S::INFTY: v = 1e100; break;            // the model's infinity; other values change the meaning of every bound
+   case S::TIMELIMIT: v = P(50) ? t.defaultValue[code] : 1e6; break;   // never binding: deterministic
+   case S::OBJLIMIT_LOWER: v = P(50) ? t.defaultValue[code] : -(double) R(0, 8); break;
+   case S::OBJLIMIT_UPPER: v = P(50) ? t.defaultValue[code] : (double) R(0, 8); break;
+   case S::OBJ_OFFSET: v = dq(gval()); break;
+   default:
+   {
+      static const double f[] = {1.0, 0.5, 2.0, 0.1};
+      v = t.defaultValue[code] * f[R(0, 3)];
+      v = std::min(std::max(v, t.lower[code]), t.upper[code]);
+   }
+   }
+   r.add(code).addq(dblQ(v));
+}
+
+struct GenState
+{
+   int m = 0, n = 0;
+   bool sync = false;
+};
+typedef void (*OpGen)(Rec&, GenState&);
+struct OpDef
+{
+   const char* name;
+   int kind;      // 0 always, 1 needs cols, 2 needs rows, 3 needs rows and cols; +4: needs sync
+   int weight;
+   int queryBoost;   // extra weight right after a solve
+   OpGen g;
+};
+static void gNone(Rec&, GenState&) {}
+static void gIdx(Rec& r, GenState&)
+{
+   r.add(R(0, 11));
+}
+static void addHead(Rec& r, int room)   // mode k extra
+{
+   // mode 0: dense array over the full current dimension; 1: shorter prefix; 2: longer (rows/columns created implicitly,
+   // as the in-tree client tests/c_interface/main.c does)
+   int mode = W({70, 12, 18});
+   if(room <= 0 && mode == 2) mode = 0;
+   r.add(mode).add(R(0, 7)).add(W({60, 40}) == 0 ? 0 : R(1, 5));
+}
+static void gAddColReal(Rec& r, GenState& s)
+{
+   addHead(r, 7 - s.m);
+   Q l, u;
+   gpair(l, u);
+   r.addq(gval()).addq(l).addq(u);
+   poolQ(r, s.m + 2, gentry);
+   s.n++;
+   if(r.i(0) == 2) s.m += 1 + (int)(r.i(1) % 2);
+}
+static void gAddRowReal(Rec& r, GenState& s)
+{
+   addHead(r, 7 - s.n);
+   Q l, u;
+   gpair(l, u);
+   r.addq(l).addq(u);
+   poolQ(r, s.n + 2, gentry);
+   s.m++;
+   if(r.i(0) == 2) s.n += 1 + (int)(r.i(1) % 2);
+}
+static void gAddColRat(Rec& r, GenState& s)
+{
+   addHead(r, 7 - s.m);
+   long ln, ld, un, ud;
+   gratpair(ln, ld, un, ud);
+   r.add(gnum()).add(gden()).add(ln).add(ld).add(un).add(ud);
+   poolRat(r, s.m + 2, true);
+   s.n++;
+   if(r.i(0) == 2) s.m += 1 + (int)(r.i(1) % 2);
+}
+static void gAddRowRat(Rec& r, GenState& s)
+{
+   addHead(r, 7 - s.n);
+   long ln, ld, un, ud;
+   gratpair(ln, ld, un, ud);
+   r.add(ln).add(ld).add(un).add(ud);
+   poolRat(r, s.n + 2, true);
+   s.m++;
+   if(r.i(0) == 2) s.n += 1 + (int)(r.i(1) % 2);
+}
+static void gRemCol(Rec& r, GenState& s)
+{
+   r.add(R(0, 11));
+   s.n = std::max(0, s.n - 1);
+}
+static void gRemRow(Rec& r, GenState& s)
+{
+   r.add(R(0, 11));
+   s.m = std::max(0, s.m - 1);
+}
+static void gDimMode(Rec& r, GenState&)
+{
+   r.add(W({70, 18, 12}));
+}
+static void gColVals(Rec& r, GenState& s)
+{
+   poolQ(r, s.n, gval);
+}
+static void gRowLhs(Rec& r, GenState& s)
+{
+   poolQ(r, s.m, glow);
+}
+static void gRowRhs(Rec& r, GenState& s)
+{
+   poolQ(r, s.m, gupp);
+}
+static void gColLow(Rec& r, GenState& s)
+{
+   poolQ(r, s.n, glow);
+}
+static void gColUpp(Rec& r, GenState& s)
+{
+   poolQ(r, s.n, gupp);
+}
+static void gPairs(Rec& r, int k)
+{
+   for(int i = 0; i < std::max(1, k); i++)
+   {
+      Q l, u;
+      gpair(l, u);
+      r.addq(l).addq(u);
+   }
+}
+static void gRowPairs(Rec& r, GenState& s)
+{
+   gPairs(r, s.m);
+}
+static void gColPairs(Rec& r, GenState& s)
+{
+   gPairs(r, s.n);
+}
+static void gIdxVal(Rec& r, GenState&)
+{
+   r.add(R(0, 11)).addq(P(25) ? (P(50) ? QINF() : Q(-QINF())) : gval());
+}
+static void gIdxLow(Rec& r, GenState&)
+{
+   r.add(R(0, 11)).addq(glow());
+}
+static void gIdxUpp(Rec& r, GenState&)
+{
+   r.add(R(0, 11)).addq(gupp());
+}
+static void gIdxPair(Rec& r, GenState&)
+{
+   Q l, u;
+   gpair(l, u);
+   r.add(R(0, 11)).addq(l).addq(u);
+}
+static void gColRat(Rec& r, GenState& s)
+{
+   poolRat(r, s.n, false);
+}
+static void gRowRat(Rec& r, GenState& s)
+{
+   poolRat(r, s.m, false);
+}
+static void gIdxRatPair(Rec& r, GenState&)
+{
+   long ln, ld, un, ud;
+   gratpair(ln, ld, un, ud);
+   r.add(R(0, 11)).add(ln).add(ld).add(un).add(ud);
+}
+static void gIdxExtra(Rec& r, GenState&)
+{
+   r.add(R(0, 11)).add(W({50, 50}) == 0 ? 0 : R(1, 3));
+}
+static void gSetInt(Rec& r, GenState& s)
+{
+   genIntParam(r, false);
+   if(r.i(0) == SoPlex::SYNCMODE) s.sync = r.i(1) == 1;
+}
+static void gSetBool(Rec& r, GenState&)
+{
+   genBoolParam(r);
+}
+static void gSetReal(Rec& r, GenState&)
+{
+   genRealParam(r);
+}
+static void gGetInt(Rec& r, GenState&)
+{
+   r.add(R(0, SoPlex::INTPARAM_COUNT - 1));
+}
+static void gSetRational(Rec&, GenState& s)
+{
+   s.sync = true;
+}
+static void gClear(Rec&, GenState& s)
+{
+   s.m = s.n = 0;
+}
+static void gRecreate(Rec&, GenState& s)
+{
+   s = GenState();
+}
+static void gWrite(Rec& r, GenState&)
+{
+   r.add(R(0, 1));
+}
+static void gReadLP(Rec& r, GenState& s)
+{
+   int kind = W({70, 15, 15});   // valid MPS file, missing file, malformed file
+   int m = R(0, 4), n = R(1, 4);
+   r.add(kind).add(m).add(n).add(P(50) ? 1 : -1);
+   for(int i = 0; i < 6 + m * n; i++) r.add(R(-6, 6));
+   if(kind == 0)
+   {
+      s.m = m;
+      s.n = n;
+   }
+   else s.m = s.n = 0;
+}
+static void gReadBas(Rec& r, GenState&)
+{
+   r.add(W({30, 25, 25, 10, 10}));   // empty basis, one XU/XL record, one UL/LL record, missing file, malformed
+}
+static void gReadSet(Rec& r, GenState&)
+{
+   int k = R(0, 4);
+   r.add(W({88, 12}));   // 1: the file does not exist
+   for(int i = 0; i < k; i++)
+   {
+      int t = W({40, 30, 30});
+      Rec tmp;
+      if(t == 0) genIntParam(tmp, true);
+      else if(t == 1) genBoolParam(tmp);
+      else genRealParam(tmp);
+      r.add(t).add(tmp.s(0)).add(tmp.s(1));
+   }
+}
+
+static const OpDef OPS[] =
+{
+   // simplest first (shrinking moves towards index 0)
+   {"numRows", 0, 2, 0, gNone},
+   {"numCols", 0, 2, 0, gNone},
+   {"getStatus", 0, 2, 4, gNone},
+   {"objValueReal", 0, 2, 6, gNone},
+   {"getNumIterations", 0, 1, 3, gNone},
+   {"getSolvingTime", 0, 1, 2, gNone},
+   {"optimize", 3, 22, 0, gNone},
+   {"getPrimalReal", 0, 2, 8, gDimMode},
+   {"getDualReal", 0, 2, 6, gDimMode},
+   {"getRedCostReal", 0, 2, 6, gDimMode},
+   {"basisRowStatus", 2, 2, 4, gIdx},
+   {"basisColStatus", 1, 2, 4, gIdx},
+   {"addColReal", 0, 16, 0, gAddColReal},
+   {"addRowReal", 0, 16, 0, gAddRowReal},
+   {"removeColReal", 1, 4, 0, gRemCol},
+   {"removeRowReal", 2, 4, 0, gRemRow},
+   {"changeObjReal", 1, 4, 0, gColVals},
+   {"changeLhsReal", 2, 3, 0, gRowLhs},
+   {"changeRhsReal", 2, 3, 0, gRowRhs},
+   {"changeRangeReal", 2, 3, 0, gRowPairs},
+   {"changeRowLhsReal", 2, 3, 0, gIdxLow},
+   {"changeRowRhsReal", 2, 3, 0, gIdxUpp},
+   {"changeRowRangeReal", 2, 3, 0, gIdxPair},
+   {"changeBoundsReal", 1, 3, 0, gColPairs},
+   {"changeLowerReal", 1, 3, 0, gColLow},
+   {"changeUpperReal", 1, 3, 0, gColUpp},
+   {"changeVarBoundsReal", 1, 3, 0, gIdxPair},
+   {"changeVarLowerReal", 1, 3, 0, gIdxLow},
+   {"changeVarUpperReal", 1, 3, 0, gIdxUpp},
+   {"getLowerReal", 0, 2, 0, gDimMode},
+   {"getUpperReal", 0, 2, 0, gDimMode},
+   {"getObjReal", 0, 2, 0, gDimMode},
+   {"getRowVectorReal", 2, 3, 0, gIdxExtra},
+   {"getRowBoundsReal", 2, 3, 0, gIdx},
+   {"getIntParam", 0, 2, 0, gGetInt},
+   {"setIntParam", 0, 7, 0, gSetInt},
+   {"setBoolParam", 0, 4, 0, gSetBool},
+   {"setRealParam", 0, 4, 0, gSetReal},
+   {"setRational", 0, 5, 0, gSetRational},
+   {"addColRational", 4, 14, 0, gAddColRat},
+   {"addRowRational", 4, 14, 0, gAddRowRat},
+   {"changeObjRational", 5, 4, 0, gColRat},
+   {"changeLhsRational", 6, 4, 0, gRowRat},
+   {"changeRhsRational", 6, 4, 0, gRowRat},
+   {"changeVarBoundsRational", 5, 4, 0, gIdxRatPair},
+   {"getRowVectorRational", 6, 3, 0, gIdxExtra},
+   {"getRowBoundsRational", 6, 3, 0, gIdx},
+   {"getPrimalRationalString", 4, 2, 8, gNone},
+   {"objValueRationalString", 0, 1, 6, gNone},
+   {"writeFileReal", 0, 2, 0, gWrite},
+   {"readInstanceFile", 0, 2, 0, gReadLP},
+   {"readBasisFile", 0, 2, 0, gReadBas},
+   {"readSettingsFile", 0, 2, 0, gReadSet},
+   {"clearLPReal", 0, 1, 0, gClear},
+   {"recreate", 0, 1, 0, gRecreate},
+};
+static const int NOPS = sizeof(OPS) / sizeof(OPS[0]);
+
+static void gen(Case& c)
+{
+   GenState s;
+   int len = 6 + R(0, 10 + curSize() / 2);
+   int boost = 0;   // > 0: we are in the query burst after a solve
+   bool wantRat = P(60);
+   int ratAt = R(0, 3);
+   for(int t = 0; t < len; t++)
+   {
+      if(wantRat && !s.sync && t == ratAt)
+      {
+         // a client that wants exact solving switches the mode first (SoPlex_setRational as in tests/c_interface)
+         Rec r("setRational");
+         gSetRational(r, s);
+         c.recs.push_back(r);
+         continue;
+      }
+      std::vector<int> w(NOPS);
+      int tot = 0;
+      for(int k = 0; k < NOPS; k++)
+      {
+         const OpDef& o = OPS[k];
+         int need = o.kind & 3;
+         bool ok = (!(need & 1) || s.n > 0) && (!(need & 2) || s.m > 0) && (!(o.kind & 4) || s.sync);
+         int wt = ok ? o.weight + (boost > 0 ? o.queryBoost * 4 : 0) : 0;
+         if(ok && (s.m >= 6 || s.n >= 6) && !strncmp(o.name, "add", 3)) wt = 1;
+         if(ok && s.m + s.n == 0 && !strncmp(o.name, "add", 3)) wt *= 3;
+         if(!strcmp(o.name, "setRational") && s.sync) wt = 1;
+         w[k] = wt;
+         tot += wt;
+      }
+      int x = R(0, tot - 1), k = 0;
+      while(x >= w[k]) x -= w[k++];
+      Rec r(OPS[k].name);
+      OPS[k].g(r, s);
+      c.recs.push_back(r);
+      if(!strcmp(OPS[k].name, "optimize")) boost = R(2, 5);
+      else if(boost > 0) boost--;
+   }
+}
+
+// ------------------------------------------------------------------ execution
+static std::string slurp(const std::string& p, bool& ok)
+{
+   std::ifstream is(p, std::ios::binary);
+   ok = (bool) is;
+   std::stringstream ss;
+   ss << is.rdbuf();
+   return ss.str();
+}
+
+struct Runner
+{
+   Verdict v;
+   void* h = nullptr;
+   SoPlex* co = nullptr;            // the object behind the handle (the wrapper casts exactly like this)
+   std::unique_ptr<SoPlex> tw;      // twin driven through the C++ API
+   Model M;
+   std::string dir;
+   bool ownDir = false;
+   std::vector<std::string> files;
+   int fileNo = 0;
+   bool needAnchor = false, threw = false, allowThrow = false;
+   bool hadRat = false, hadAdd = false, modAfterAdd = false, solved = false, queried = false;
+
+   void cnt(const char* fn)
+   {
+      ev().count(std::string("c.SoPlex_") + fn);
+   }
+   std::string path(const char* ext)
+   {
+      std::string p = dir + "/c20_" + std::to_string((long) getpid()) + "_" + std::to_string(fileNo++) + ext;
+      files.push_back(p);
+      return p;
+   }
+   void create()
+   {
+      h = SoPlex_create();
+      cnt("create");
+      co = (SoPlex*) h;
+      tw.reset(new SoPlex());
+      // every client silences the log first; done through the C call on one side and the C++ call on the other
+      SoPlex_setIntParam(h, SoPlex::VERBOSITY, SoPlex::VERBOSITY_ERROR);
+      tw->setIntParam(SoPlex::VERBOSITY, SoPlex::VERBOSITY_ERROR);
+      M = Model();
+      M.lp.sense = SoPlex::Settings::intParam.defaultValue[SoPlex::OBJSENSE];   // documented default (maximise)
+      M.lp.offset = qd(SoPlex::Settings::realParam.defaultValue[SoPlex::OBJ_OFFSET]);
+      M.expI[SoPlex::VERBOSITY] = 0;
+   }
+   void destroy()
+   {
+      if(h)
+      {
+         SoPlex_free(h);
+         cnt("free");
+      }
+      h = nullptr;
+      co = nullptr;
+      tw.reset();
+   }
+   // run the C call and its C++ mirror; an exception must escape from both or from none
+   template <class F, class G> bool both(const char* fn, F cf, G tf)
+   {
+      bool ce = false, te = false;
+      try
+      {
+         cf();
+      }
+      catch(const soplex::SPxException&)
+      {
+         ce = true;
+      }
+      catch(const std::exception&)
+      {
+         ce = true;
+      }
+      try
+      {
+         tf();
+      }
+      catch(const soplex::SPxException&)
+      {
+         te = true;
+      }
+      catch(const std::exception&)
+      {
+         te = true;
+      }
+      cnt(fn);
+      if(ce != te)
+      {
+         v.fail(std::string("SoPlex_") + fn + ": exception escaped from " + (ce ? "the C call only" : "the C++ call only"));
+         return false;
+      }
+      if(ce)
+      {
+         // a C client cannot catch a C++ exception: letting one escape from an extern "C" function is a failure of the
+         // wrapper unless it is a recorded known finding (then the state is re-anchored and the search goes on)
+         threw = true;
+         ev().count(std::string("both_threw.") + fn);
+         if(!allowThrow)
+         {
+            v.fail(std::string("SoPlex_") + fn + ": a C++ exception escaped from the extern \"C\" function (the C++ call throws too)");
+            return false;
+         }
+      }
+      return !ce;
+   }
+   bool bad(const std::string& tag, const std::string& what)
+   {
+      v.fail("SoPlex_" + tag + ": " + what);
+      return false;
+   }
+   // pools
+   static Q pq(const Rec& r, int start, int k)
+   {
+      int len = (int) r.n() - start;
+      return len <= 0 ? Q(0) : r.q(start + k % len);
+   }
+   static bool prat(const Rec& r, int start, int k, long& nm, long& dn)
+   {
+      int np = ((int) r.n() - start) / 2;
+      if(np <= 0) return false;
+      nm = r.i(start + 2 * (k % np));
+      dn = r.i(start + 2 * (k % np) + 1);
+      if(dn <= 0) dn = 1;
+      return true;
+   }
+   void implicitRows(int upto)   // rows created by a column entry beyond numRows: LPRowBase default [0, +inf)
+   {
+      while(M.lp.m() < upto) M.lp.addRow(Q(0), QINF());
+   }
+   void implicitCols(int upto)   // LPColBase default: [0, +inf), objective 0
+   {
+      while(M.lp.n() < upto) M.lp.addCol(Q(0), QINF(), Q(0));
+   }
+   int addSize(const Rec& r, int cur)
+   {
+      int mode = (int) r.i(0), k = (int) r.i(1);
+      if(mode == 1) return k % (cur + 1);
+      if(mode == 2) return cur + 1 + k % 2;
+      return cur;
+   }
+
+   bool step(const Rec& r);
+   bool stepFiles(const Rec& r);
+   bool stepRational(const Rec& r);
+   bool stepQuery(const Rec& r);
+   bool check(const std::string& tag)
+   {
+      std::string d = cmpObjects(*co, *tw);
+      if(!d.empty())
+      {
+         v.fail("after SoPlex_" + tag + ": object behind the C handle and C++ twin differ in " + d);
+         return false;
+      }
+      d = cmpModel(*co, M);
+      if(!d.empty())
+      {
+         v.fail("after SoPlex_" + tag + ": C object differs from the model built from the input arrays in " + d);
+         return false;
+      }
+      if(needAnchor)
+      {
+         anchor(*co, M);
+         needAnchor = false;
+         ev().count("model.anchored_on_leaving_auto_sync");
+      }
+      return true;
+   }
+};
+
+bool Runner::step(const Rec& r)
+{
+   const std::string& t = r.tag;
+   LP& lp = M.lp;
+   int m = lp.m(), n = lp.n();
+   bool isMod = !t.compare(0, 6, "change") || !t.compare(0, 6, "remove");
+   if(isMod && hadAdd) modAfterAdd = true;
+
+   if(t == "recreate")
+   {
+      destroy();
+      create();
+      return true;
+   }
+   if(t == "numRows")
+   {
+      int a = -1, b = -2;
+      if(!both("numRows", [&] { a = SoPlex_numRows(h); }, [&] { b = tw->numRows(); })) return true;
+      if(a != b || a != m) return bad(t, "wrong number of rows");
+      return true;
+   }
+   if(t == "numCols")
+   {
+      int a = -1, b = -2;
+      if(!both("numCols", [&] { a = SoPlex_numCols(h); }, [&] { b = tw->numCols(); })) return true;
+      if(a != b || a != n) return bad(t, "wrong number of columns");
+      return true;
+   }
+   if(t == "clearLPReal")
+   {
+      both("clearLPReal", [&] { SoPlex_clearLPReal(h); }, [&] { tw->clearLPReal(); });
+      M.clear();
+      return true;
+   }
+   if(t == "setRational" || (t == "setIntParam" && r.i(0) == SoPlex::SYNCMODE && r.i(1) == SoPlex::SYNCMODE_AUTO))
+   {
+      if(!M.sync && storedScaled(*co))
+      {
+         ev().count("sync_auto_requested_on_scaled_lp");
+         if(known(K_SYNCSCALED))
+         {
+            ev().count(std::string("excluded_known.") + K_SYNCSCALED);
+            return true;
+         }
+      }
+   }
+   if(t == "setRational")
+   {
+      both("setRational", [&] { SoPlex_setRational(h); }, [&]
+      {
+         tw->setIntParam(SoPlex::READMODE, SoPlex::READMODE_RATIONAL);
+         tw->setIntParam(SoPlex::SOLVEMODE, SoPlex::SOLVEMODE_RATIONAL);
+         tw->setIntParam(SoPlex::CHECKMODE, SoPlex::CHECKMODE_RATIONAL);
+         tw->setIntParam(SoPlex::SYNCMODE, SoPlex::SYNCMODE_AUTO);
+         tw->setRealParam(SoPlex::FEASTOL, 0.0);
+         tw->setRealParam(SoPlex::OPTTOL, 0.0);
+      });
+      M.expI[SoPlex::READMODE] = SoPlex::READMODE_RATIONAL;
+      M.expI[SoPlex::SOLVEMODE] = SoPlex::SOLVEMODE_RATIONAL;
+      M.expI[SoPlex::CHECKMODE] = SoPlex::CHECKMODE_RATIONAL;
+      M.expI[SoPlex::SYNCMODE] = SoPlex::SYNCMODE_AUTO;
+      M.expR[SoPlex::FEASTOL] = 0.0;
+      M.expR[SoPlex::OPTTOL] = 0.0;
+      M.sync = true;
+      return true;
+   }
+   if(t == "setIntParam")
+   {
+      int code = (int) r.i(0), val = (int) r.i(1);
+      if(code < 0 || code >= SoPlex::INTPARAM_COUNT || (code == SoPlex::SYNCMODE && val == SoPlex::SYNCMODE_MANUAL)) return true;
+      bool ok = false;
+      if(!both("setIntParam", [&] { SoPlex_setIntParam(h, code, val); }, [&] { ok = tw->setIntParam((SoPlex::IntParam) code, val); })) return true;
+      ev().count("intparam." + std::to_string(code) + (ok ? "" : ".rejected"));
+      if(ok)
+      {
+         M.expI[code] = val;
+         if(code == SoPlex::OBJSENSE) lp.sense = val;
+         if(code == SoPlex::SYNCMODE)
+         {
+            if(val == SoPlex::SYNCMODE_AUTO) M.sync = true;
+            else if(M.sync)
+            {
+               M.sync = false;
+               needAnchor = true;
+            }
+         }
+      }
+      return true;
+   }
+   if(t == "setBoolParam")
+   {
+      int code = (int) r.i(0), val = (int) r.i(1);
+      if(code < 0 || code >= SoPlex::BOOLPARAM_COUNT) return true;
+      bool ok = false;
+      if(!both("setBoolParam", [&] { SoPlex_setBoolParam(h, code, val); }, [&] { ok = tw->setBoolParam((SoPlex::BoolParam) code, val != 0); })) return true;
+      ev().count("boolparam." + std::to_string(code) + (ok ? "" : ".rejected"));
+      if(ok) M.expB[code] = val != 0;
+      return true;
+   }
+   if(t == "setRealParam")
+   {
+      int code = (int) r.i(0);
+      double val = dq(r.q(1));
+      if(code < 0 || code >= SoPlex::REALPARAM_COUNT) return true;
+      bool ok = false;
+      if(!both("setRealParam", [&] { SoPlex_setRealParam(h, code, val); }, [&] { ok = tw->setRealParam((SoPlex::RealParam) code, val); })) return true;
+      ev().count("realparam." + std::to_string(code) + (ok ? "" : ".rejected"));
+      if(ok)
+      {
+         M.expR[code] = val;
+         if(code == SoPlex::OBJ_OFFSET) lp.offset = qd(val);
+      }
+      return true;
+   }
+   if(t == "getIntParam")
+   {
+      int code = (int) r.i(0), a = -1, b = -2;
+      if(code < 0 || code >= SoPlex::INTPARAM_COUNT) return true;
+      if(!both("getIntParam", [&] { a = SoPlex_getIntParam(h, code); }, [&] { b = tw->intParam((SoPlex::IntParam) code); })) return true;
+      if(a != b) return bad(t, "value differs from intParam()");
+      if(M.expI.count(code) && M.expI[code] != a) return bad(t, "value differs from the value set before");
+      return true;
+   }
+   if(t == "addColReal" || t == "addRowReal")
+   {
+      bool col = t == "addColReal";
+      int cur = col ? m : n, size = addSize(r, cur);
+      int ps = col ? 6 : 5;
+      Q obj = col ? r.q(3) : Q(0), lb = r.q(col ? 4 : 3), ub = r.q(col ? 5 : 4);
+      std::vector<double> ent(size);
+      std::vector<Q> eq(size);
+      int nz = 0, top = 0;
+      for(int i = 0; i < size; i++)
+      {
+         eq[i] = pq(r, ps, i);
+         if(!isFin(eq[i])) eq[i] = 0;
+         ent[i] = dq(eq[i]);
+         if(eq[i] != 0)
+         {
+            nz++;
+            top = i + 1;
+         }
+      }
+      int nnz = nz + (int) r.i(2);
+      Arr<double> a(ent);
+      DSVectorReal vec;
+      for(int i = 0; i < size; i++) if(ent[i] != 0.0) vec.add(i, ent[i]);
+      if(col)
+         both("addColReal", [&] { SoPlex_addColReal(h, a.get(), size, nnz, dq(obj), dq(lb), dq(ub)); },
+              [&] { tw->addColReal(LPColReal(dq(obj), vec, dq(ub), dq(lb))); });
+      else
+         both("addRowReal", [&] { SoPlex_addRowReal(h, a.get(), size, nnz, dq(lb), dq(ub)); },
+              [&] { tw->addRowReal(LPRowReal(dq(lb), vec, dq(ub))); });
+      if(!a.unchanged()) return bad(t, "input array modified");
+      ev().count(std::string("add.size_") + (size == cur ? "exact" : size < cur ? "prefix" : "beyond"));
+      ev().count(std::string("add.nnz_") + (nz == 0 ? "zero" : r.i(2) == 0 ? "exact" : "larger"));
+      if(top > cur) ev().count("add.implicit_creation");
+      if(col)
+      {
+         implicitRows(top);
+         lp.addCol(lb, ub, obj);
+         for(int i = 0; i < size && i < lp.m(); i++) lp.A[i][lp.n() - 1] = eq[i];
+      }
+      else
+      {
+         implicitCols(top);
+         lp.addRow(lb, ub);
+         for(int j = 0; j < size && j < lp.n(); j++) lp.A[lp.m() - 1][j] = eq[j];
+      }
+      hadAdd = true;
+      return true;
+   }
+   if(t == "removeColReal" || t == "removeRowReal")
+   {
+      bool col = t == "removeColReal";
+      int dim = col ? n : m;
+      if(dim == 0)
+      {
+         ev().count("skipped." + t);
+         return true;
+      }
+      int i = (int)(r.i(0) % dim);
+      if(col) both("removeColReal", [&] { SoPlex_removeColReal(h, i); }, [&] { tw->removeColReal(i); });
+      else both("removeRowReal", [&] { SoPlex_removeRowReal(h, i); }, [&] { tw->removeRowReal(i); });
+      if(col) M.removeCol(i);
+      else M.removeRow(i);
+      return true;
+   }
+   // ---- dense vector changes (real)
+   struct VecOp
+   {
+      const char* name;
+      bool col;
+      int arrays;
+   };
+   static const VecOp vops[] = {{"changeObjReal", true, 1}, {"changeLhsReal", false, 1}, {"changeRhsReal", false, 1},
+      {"changeLowerReal", true, 1}, {"changeUpperReal", true, 1}, {"changeRangeReal", false, 2}, {"changeBoundsReal", true, 2}
+   };
+   for(auto& o : vops)
+   {
+      if(t != o.name) continue;
+      int dim = o.col ? n : m;
+      std::vector<Q> q1(dim), q2(dim);
+      std::vector<double> d1(dim), d2(dim);
+      for(int i = 0; i < dim; i++)
+      {
+         q1[i] = pq(r, 0, o.arrays * i);
+         q2[i] = pq(r, 0, o.arrays * i + 1);
+         if(t == "changeObjReal" && !isFin(q1[i])) q1[i] = 0;
+         d1[i] = dq(q1[i]);
+         d2[i] = dq(q2[i]);
+      }
+      Arr<double> a1(d1), a2(d2);
+      VectorReal v1(dim), v2(dim);
+      for(int i = 0; i < dim; i++)
+      {
+         v1[i] = d1[i];
+         v2[i] = d2[i];
+      }
+      if(t == "changeObjReal")
+      {
+         both(o.name, [&] { SoPlex_changeObjReal(h, a1.get(), dim); }, [&] { tw->changeObjReal(v1); });
+         lp.obj = q1;
+      }
+      else if(t == "changeLhsReal")
+      {
+         both(o.name, [&] { SoPlex_changeLhsReal(h, a1.get(), dim); }, [&] { tw->changeLhsReal(v1); });
+         lp.lhs = q1;
+      }
+      else if(t == "changeRhsReal")
+      {
+         both(o.name, [&] { SoPlex_changeRhsReal(h, a1.get(), dim); }, [&] { tw->changeRhsReal(v1); });
+         lp.rhs = q1;
+      }
+      else if(t == "changeLowerReal")
+      {
+         both(o.name, [&] { SoPlex_changeLowerReal(h, a1.get(), dim); }, [&] { tw->changeLowerReal(v1); });
+         lp.lo = q1;
+      }
+      else if(t == "changeUpperReal")
+      {
+         both(o.name, [&] { SoPlex_changeUpperReal(h, a1.get(), dim); }, [&] { tw->changeUpperReal(v1); });
+         lp.up = q1;
+      }
+      else if(t == "changeRangeReal")
+      {
+         both(o.name, [&] { SoPlex_changeRangeReal(h, a1.get(), a2.get(), dim); }, [&] { tw->changeRangeReal(v1, v2); });
+         lp.lhs = q1;
+         lp.rhs = q2;
+      }
+      else
+      {
+         both(o.name, [&] { SoPlex_changeBoundsReal(h, a1.get(), a2.get(), dim); }, [&] { tw->changeBoundsReal(v1, v2); });
+         lp.lo = q1;
+         lp.up = q2;
+      }
+      if(!a1.unchanged() || !a2.unchanged()) return bad(t, "input array modified");
+      ev().count(dim == 0 ? "vecop.dim_zero" : "vecop.dim_pos");
+      return true;
+   }
+   // ---- single element changes (real)
+   if(t == "changeRowLhsReal" || t == "changeRowRhsReal" || t == "changeRowRangeReal" || t == "changeVarBoundsReal"
+         || t == "changeVarLowerReal" || t == "changeVarUpperReal")
+   {
+      bool col = t.find("Var") != std::string::npos;
+      int dim = col ? n : m;
+      if(dim == 0)
+      {
+         ev().count("skipped." + t);
+         return true;
+      }
+      int i = (int)(r.i(0) % dim);
+      Q a = r.q(1), b = r.q(2);
+      double da = dq(a), db = dq(b);
+      if(t == "changeRowLhsReal")
+      {
+         both("changeRowLhsReal", [&] { SoPlex_changeRowLhsReal(h, i, da); }, [&] { tw->changeLhsReal(i, da); });
+         lp.lhs[i] = a;
+      }
+      else if(t == "changeRowRhsReal")
+      {
+         both("changeRowRhsReal", [&] { SoPlex_changeRowRhsReal(h, i, da); }, [&] { tw->changeRhsReal(i, da); });
+         lp.rhs[i] = a;
+      }
+      else if(t == "changeRowRangeReal")
+      {
+         both("changeRowRangeReal", [&] { SoPlex_changeRowRangeReal(h, i, da, db); }, [&] { tw->changeRangeReal(i, da, db); });
+         lp.lhs[i] = a;
+         lp.rhs[i] = b;
+      }
+      else if(t == "changeVarBoundsReal")
+      {
+         both("changeVarBoundsReal", [&] { SoPlex_changeVarBoundsReal(h, i, da, db); }, [&] { tw->changeBoundsReal(i, da, db); });
+         lp.lo[i] = a;
+         lp.up[i] = b;
+      }
+      else if(t == "changeVarLowerReal")
+      {
+         both("changeVarLowerReal", [&] { SoPlex_changeVarLowerReal(h, i, da); }, [&] { tw->changeLowerReal(i, da); });
+         lp.lo[i] = a;
+      }
+      else
+      {
+         both("changeVarUpperReal", [&] { SoPlex_changeVarUpperReal(h, i, da); }, [&] { tw->changeUpperReal(i, da); });
+         lp.up[i] = a;
+      }
+      return true;
+   }
+   if(t == "optimize")
+   {
+      int a = -100, b = -200;
+      if(!both("optimize", [&] { a = SoPlex_optimize(h); }, [&] { b = (int) tw->optimize(); })) return true;
+      if(a != b) return bad(t, "returned status differs from optimize() of the twin");
+      if(a != (int) co->status()) return bad(t, "returned int is not the enumerator of status()");
+      ev().count(std::string("solve.") + statusName(a) + (co->intParam(SoPlex::SOLVEMODE) == SoPlex::SOLVEMODE_REAL ? ".real" :
+                 co->intParam(SoPlex::SOLVEMODE) == SoPlex::SOLVEMODE_RATIONAL ? ".rational" : ".auto"));
+      if(co->numIterations() > 0) ev().count("solve.with_iterations");
+      solved = true;
+      return true;
+   }
+   if(stepQuery(r) || !v.ok) return v.ok;
+   if(stepRational(r) || !v.ok) return v.ok;
+   if(stepFiles(r) || !v.ok) return v.ok;
+   if(t != "x") ev().count("unknown_rec." + t);
+   return true;
+}
+
+bool Runner::stepQuery(const Rec& r)
+{
+   const std::string& t = r.tag;
+   LP& lp = M.lp;
+   int m = lp.m(), n = lp.n();
+   if(t == "getStatus")
+   {
+      int a = -100, b = -200;
+      if(!both("getStatus", [&] { a = SoPlex_getStatus(h); }, [&] { b = (int) tw->status(); })) return true;
+      if(a != b || a != (int) co->status()) bad(t, "returned int is not the enumerator of status()");
+      if(solved) queried = true;
+      return true;
+   }
+   if(t == "objValueReal")
+   {
+      double a = SENT, b = 1.0;
+      if(!both("objValueReal", [&] { a = SoPlex_objValueReal(h); }, [&] { b = tw->objValueReal(); })) return true;
+      if(!sameBits(a, b)) bad(t, "value differs from objValueReal() of the twin");
+      if(solved) queried = true;
+      return true;
+   }
+   if(t == "getNumIterations")
+   {
+      int a = -100, b = -200;
+      if(!both("getNumIterations", [&] { a = SoPlex_getNumIterations(h); }, [&] { b = tw->numIterations(); })) return true;
+      if(a != b) bad(t, "value differs from numIterations() of the twin");
+      if(solved) queried = true;
+      return true;
+   }
+   if(t == "getSolvingTime")
+   {
+      // wall/CPU time is not reproducible between two objects: compared with solveTime() of the same object (the clock
+      // is stopped after the solve) and required to be a finite non-negative number
+      double a = -1, b = -1;
+      if(!both("getSolvingTime", [&] { a = SoPlex_getSolvingTime(h); }, [&] { b = tw->solveTime(); })) return true;
+      if(!sameBits(a, co->solveTime())) bad(t, "value differs from solveTime() of the same object");
+      else if(!(a >= 0.0) || !std::isfinite(a) || !(b >= 0.0)) bad(t, "not a finite non-negative time");
+      return true;
+   }
+   if(t == "getPrimalReal" || t == "getDualReal" || t == "getRedCostReal")
+   {
+      int need = t == "getDualReal" ? m : n;
+      int mode = (int) r.i(0);
+      int dim = mode == 1 ? need + 2 : (mode == 2 && need > 0) ? need - 1 : need;
+      Arr<double> a(dim, SENT), b(dim, SENT);
+      bool ok = false;
+      VectorReal ref(need);
+      bool okRef = false;
+      if(t == "getPrimalReal")
+      {
+         if(!both("getPrimalReal", [&] { SoPlex_getPrimalReal(h, a.get(), dim); }, [&] { ok = tw->getPrimalReal(b.get(), dim); })) return true;
+         okRef = tw->getPrimal(ref);
+      }
+      else if(t == "getDualReal")
+      {
+         if(!both("getDualReal", [&] { SoPlex_getDualReal(h, a.get(), dim); }, [&] { ok = tw->getDualReal(b.get(), dim); })) return true;
+         okRef = tw->getDual(ref);
+      }
+      else
+      {
+         if(!both("getRedCostReal", [&] { SoPlex_getRedCostReal(h, a.get(), dim); }, [&] { ok = tw->getRedCostReal(b.get(), dim); })) return true;
+         okRef = tw->getRedCost(ref);
+      }
+      ev().count("getsol." + std::string(dim == need ? "dim_exact" : dim > need ? "dim_larger" : "dim_smaller") + (ok ? ".available" : ".refused"));
+      if(!sameBits(a.get(), b.get(), dim)) return !bad(t, "array differs bitwise from the array filled by the C++ call");
+      if(ok)
+      {
+         if(!a.unchangedFrom(need)) return !bad(t, "wrote beyond the vector dimension");
+         if(okRef && !sameBits(a.get(), ref.get_const_ptr(), need)) return !bad(t, "array differs from the C++ vector getter");
+      }
+      else if(!a.unchanged()) return !bad(t, "array written although no solution is available");
+      if(solved && ok) queried = true;
+      return true;
+   }
+   if(t == "basisRowStatus" || t == "basisColStatus")
+   {
+      bool col = t == "basisColStatus";
+      int dim = col ? n : m;
+      if(dim == 0)
+      {
+         ev().count("skipped." + t);
+         return true;
+      }
+      int i = (int)(r.i(0) % dim), a = -100, b = -200;
+      if(col)
+      {
+         if(!both("basisColStatus", [&] { a = SoPlex_basisColStatus(h, i); }, [&] { b = (int) tw->basisColStatus(i); })) return true;
+      }
+      else if(!both("basisRowStatus", [&] { a = SoPlex_basisRowStatus(h, i); }, [&] { b = (int) tw->basisRowStatus(i); })) return true;
+      if(a != b || a != (int)(col ? co->basisColStatus(i) : co->basisRowStatus(i))) return !bad(t, "returned int is not the VarStatus enumerator of the C++ call");
+      if(a < 0 || a > 5) return !bad(t, "returned code outside the documented set");
+      ev().count(std::string("basis.") + (col ? "col." : "row.") + std::to_string(a));
+      if(solved) queried = true;
+      return true;
+   }
+   if(t == "getLowerReal" || t == "getUpperReal" || t == "getObjReal")
+   {
+      // dim is the length of the client's buffer: the full dimension or a prefix (the wrapper copies dim entries out of a
+      // vector of numCols entries, so dim > numCols has no defined meaning and is not generated)
+      int mode = (int) r.i(0);
+      int dim = (mode != 0 && n > 0) ? n - 1 : n;
+      Arr<double> a(dim, SENT);
+      VectorReal ref(n);
+      const std::vector<Q>* src;
+      if(t == "getLowerReal")
+      {
+         if(!both("getLowerReal", [&] { SoPlex_getLowerReal(h, a.get(), dim); }, [&] { tw->getLowerReal(ref); })) return true;
+         src = &lp.lo;
+      }
+      else if(t == "getUpperReal")
+      {
+         if(!both("getUpperReal", [&] { SoPlex_getUpperReal(h, a.get(), dim); }, [&] { tw->getUpperReal(ref); })) return true;
+         src = &lp.up;
+      }
+      else
+      {
+         if(!both("getObjReal", [&] { SoPlex_getObjReal(h, a.get(), dim); }, [&] { tw->getObjReal(ref); })) return true;
+         src = &lp.obj;
+      }
+      ev().count(dim == n ? "getvec.dim_exact" : "getvec.dim_prefix");
+      if(!sameBits(a.get(), ref.get_const_ptr(), dim)) return !bad(t, "array differs from the C++ vector getter");
+      for(int j = 0; j < dim; j++) if(!okReal(a.get()[j], (*src)[j])) return !bad(t, "array differs from the values passed in");
+      return true;
+   }
+   if(t == "getRowVectorReal")
+   {
+      if(m == 0)
+      {
+         ev().count("skipped." + t);
+         return true;
+      }
+      int i = (int)(r.i(0) % m);
+      DSVectorReal ref;
+      tw->getRowVectorReal(i, ref);
+      int mnz = 0;
+      for(int j = 0; j < n; j++) if(lp.A[i][j] != 0) mnz++;
+      if(ref.size() != mnz) return !bad(t, "number of stored entries differs from the non-zeros passed in");
+      int len = mnz + (int) r.i(1);   // the client knows how many non-zeros it put into the row
+      Arr<int> nn(1, -77);
+      Arr<long> idx(len, -77L);
+      Arr<double> cf(len, SENT);
+      if(!both("getRowVectorReal", [&] { SoPlex_getRowVectorReal(h, i, nn.get(), idx.get(), cf.get()); }, [&] {})) return true;
+      ev().count(mnz == 0 ? "getrow.empty" : r.i(1) == 0 ? "getrow.buffer_exact" : "getrow.buffer_larger");
+      if(nn.get()[0] != mnz) return !bad(t, "nnonzeros differs from the row size");
+      for(int k = 0; k < mnz; k++)
+      {
+         if(idx.get()[k] != ref.index(k) || !sameBits(cf.get()[k], ref.value(k))) return !bad(t, "entry differs from getRowVectorReal() of the twin");
+         long j = idx.get()[k];
+         if(j < 0 || j >= n || !okReal(cf.get()[k], lp.A[i][j])) return !bad(t, "entry differs from the coefficient passed in");
+      }
+      if(!idx.unchangedFrom(mnz) || !cf.unchangedFrom(mnz)) return !bad(t, "wrote beyond the row size");
+      return true;
+   }
+   if(t == "getRowBoundsReal")
+   {
+      if(m == 0)
+      {
+         ev().count("skipped." + t);
+         return true;
+      }
+      int i = (int)(r.i(0) % m);
+      Arr<double> lb(1, SENT), ub(1, SENT);
+      if(!both("getRowBoundsReal", [&] { SoPlex_getRowBoundsReal(h, i, lb.get(), ub.get()); }, [&] {})) return true;
+      if(!sameBits(lb.get()[0], tw->lhsReal(i)) || !sameBits(ub.get()[0], tw->rhsReal(i))) return !bad(t, "differs from lhsReal()/rhsReal() of the twin");
+      if(!okReal(lb.get()[0], lp.lhs[i]) || !okReal(ub.get()[0], lp.rhs[i])) return !bad(t, "differs from the sides passed in (order?)");
+      return true;
+   }
+   return false;
+}
+
+bool Runner::stepRational(const Rec& r)
+{
+   const std::string& t = r.tag;
+   LP& lp = M.lp;
+   int m = lp.m(), n = lp.n();
+   if(t == "objValueRationalString")
+   {
+      // needs no rational LP: objValueRational() reads the solution object only
+      char* s = nullptr;
+      Rational ref;
+      if(!both("objValueRationalString", [&] { s = SoPlex_objValueRationalString(h); }, [&] { ref = tw->objValueRational(); })) return true;
+      std::string exp = ref.str();
+      if(s == nullptr) return !bad(t, "returned a null pointer");
+      if(known(K_OBJSTR))
+      {
+         // known finding: the buffer holds one byte; only that byte can be read
+         ev().count(std::string("excluded_known.") + K_OBJSTR);
+         bool ok = s[0] == exp[0];
+         delete[] s;
+         if(!ok) return !bad(t, "first character differs from objValueRational()");
+      }
+      else
+      {
+         bool ok = strncmp(s, exp.c_str(), exp.size() + 1) == 0;   // reads at most strlen(expected)+1 bytes
+         if(ok && qparse(s) != qr(ref)) ok = false;
+         delete[] s;
+         if(!ok) return !bad(t, "returned buffer is not the NUL-terminated text of objValueRational()");
+      }
+      hadRat = true;
+      if(solved) queried = true;
+      return true;
+   }
+   static const char* ratOps[] = {"addColRational", "addRowRational", "changeObjRational", "changeLhsRational", "changeRhsRational",
+                                  "changeVarBoundsRational", "getRowVectorRational", "getRowBoundsRational", "getPrimalRationalString"
+                                 };
+   bool mine = false;
+   for(auto o : ratOps) if(t == o) mine = true;
+   if(!mine) return false;
+   if(!M.sync)
+   {
+      // without SoPlex_setRational / SYNCMODE_AUTO there is no rational LP behind the handle: not a client sequence
+      ev().count("skipped_no_rational_lp." + t);
+      return true;
+   }
+   if(t == "addColRational" || t == "addRowRational")
+   {
+      bool col = t == "addColRational";
+      int cur = col ? m : n, size = addSize(r, cur);
+      int ps = col ? 9 : 7, b0 = col ? 5 : 3;
+      long on = col ? r.i(3) : 0, od = col ? std::max(1L, r.i(4)) : 1;
+      long ln = r.i(b0), ld = std::max(1L, r.i(b0 + 1)), un = r.i(b0 + 2), ud = std::max(1L, r.i(b0 + 3));
+      std::vector<long> nums(size), dens(size);
+      std::vector<Q> eq(size);
+      int nz = 0, top = 0;
+      for(int i = 0; i < size; i++)
+      {
+         long a = 0, b = 1;
+         prat(r, ps, i, a, b);
+         nums[i] = a;
+         dens[i] = b;
+         eq[i] = QL(a, b);
+         if(a != 0)
+         {
+            nz++;
+            top = i + 1;
+            if(a > 1000000 || a < -1000000 || b > 1000000) ev().count("rational.large_long_entry");
+            if(a < 0) ev().count("rational.negative_numerator");
+            if(b == 1) ev().count("rational.denominator_one");
+         }
+      }
+      int nnz = nz + (int) r.i(2);
+      Arr<long> an(nums), ad(dens);
+      DSVectorRational vec;
+      for(int i = 0; i < size; i++) if(nums[i] != 0) vec.add(i, rq(eq[i]));
+      Q obj = QL(on, od), lb = QL(ln, ld), ub = QL(un, ud);
+      if(col)
+         both("addColRational", [&] { SoPlex_addColRational(h, an.get(), ad.get(), size, nnz, on, od, ln, ld, un, ud); },
+              [&] { tw->addColRational(LPColRational(rq(obj), vec, rq(ub), rq(lb))); });
+      else
+         both("addRowRational", [&] { SoPlex_addRowRational(h, an.get(), ad.get(), size, nnz, ln, ld, un, ud); },
+              [&] { tw->addRowRational(LPRowRational(rq(lb), vec, rq(ub))); });
+      if(!an.unchanged() || !ad.unchanged()) return !bad(t, "input array modified");
+      ev().count(std::string("addrat.size_") + (size == cur ? "exact" : size < cur ? "prefix" : "beyond"));
+      ev().count(std::string("addrat.nnz_") + (nz == 0 ? "zero" : r.i(2) == 0 ? "exact" : "larger"));
+      if(top > cur) ev().count("addrat.implicit_creation");
+      if(col)
+      {
+         implicitRows(top);
+         lp.addCol(lb, ub, obj);
+         for(int i = 0; i < size && i < lp.m(); i++) lp.A[i][lp.n() - 1] = eq[i];
+      }
+      else
+      {
+         implicitCols(top);
+         lp.addRow(lb, ub);
+         for(int j = 0; j < size && j < lp.n(); j++) lp.A[lp.m() - 1][j] = eq[j];
+      }
+      hadAdd = true;
+      hadRat = true;
+      return true;
+   }
+   if(t == "changeObjRational" || t == "changeLhsRational" || t == "changeRhsRational")
+   {
+      int dim = t == "changeObjRational" ? n : m;
+      std::vector<long> nums(dim), dens(dim);
+      std::vector<Q> q(dim);
+      VectorRational vr(dim);
+      for(int i = 0; i < dim; i++)
+      {
+         long a = 0, b = 1;
+         prat(r, 0, i, a, b);
+         nums[i] = a;
+         dens[i] = b;
+         q[i] = QL(a, b);
+         vr[i] = rq(q[i]);
+      }
+      Arr<long> an(nums), ad(dens);
+      if(t == "changeObjRational")
+      {
+         both("changeObjRational", [&] { SoPlex_changeObjRational(h, an.get(), ad.get(), dim); }, [&] { tw->changeObjRational(vr); });
+         lp.obj = q;
+      }
+      else if(t == "changeLhsRational")
+      {
+         both("changeLhsRational", [&] { SoPlex_changeLhsRational(h, an.get(), ad.get(), dim); }, [&] { tw->changeLhsRational(vr); });
+         lp.lhs = q;
+      }
+      else
+      {
+         both("changeRhsRational", [&] { SoPlex_changeRhsRational(h, an.get(), ad.get(), dim); }, [&] { tw->changeRhsRational(vr); });
+         lp.rhs = q;
+      }
+      if(!an.unchanged() || !ad.unchanged()) return !bad(t, "input array modified");
+      hadRat = true;
+      return true;
+   }
+   if(t == "changeVarBoundsRational")
+   {
+      if(n == 0)
+      {
+         ev().count("skipped." + t);
+         return true;
+      }
+      int j = (int)(r.i(0) % n);
+      long ln = r.i(1), ld = std::max(1L, r.i(2)), un = r.i(3), ud = std::max(1L, r.i(4));
+      Q lb = QL(ln, ld), ub = QL(un, ud);
+      both("changeVarBoundsRational", [&] { SoPlex_changeVarBoundsRational(h, j, ln, ld, un, ud); }, [&] { tw->changeBoundsRational(j, rq(lb), rq(ub)); });
+      lp.lo[j] = lb;
+      lp.up[j] = ub;
+      hadRat = true;
+      return true;
+   }
+   if(t == "getPrimalRationalString")
+   {
+      // dim is the number of columns (VectorRational primal(dim) is filled by getPrimalRational and then read dim times)
+      char* s = nullptr;
+      VectorRational ref(n);
+      bool ok = false;
+      if(!both("getPrimalRationalString", [&] { s = SoPlex_getPrimalRationalString(h, n); }, [&] { ok = tw->getPrimalRational(ref); })) return true;
+      if(s == nullptr) return !bad(t, "returned a null pointer");
+      std::string str(s);
+      delete[] s;
+      std::istringstream is(str);
+      std::string tok;
+      int k = 0;
+      bool good = true;
+      while(is >> tok)
+      {
+         if(k < n)
+         {
+            Q val;
+            try
+            {
+               val = qparse(tok);
+            }
+            catch(...)
+            {
+               good = false;
+            }
+            if(good && val != qr(ref[k])) good = false;
+         }
+         k++;
+      }
+      ev().count(ok ? "primalstring.solution_available" : "primalstring.no_solution");
+      if(!good || k != n) return !bad(t, "string does not parse to getPrimalRational() of the twin");
+      hadRat = true;
+      if(solved && ok) queried = true;
+      return true;
+   }
+   if(m == 0)
+   {
+      ev().count("skipped." + t);
+      return true;
+   }
+   int i = (int)(r.i(0) % m);
+   if(t == "getRowBoundsRational")
+   {
+      Arr<long> o(4, -77L);
+      long* p = o.get();
+      if(!both("getRowBoundsRational", [&] { SoPlex_getRowBoundsRational(h, i, p, p + 1, p + 2, p + 3); }, [&] {})) return true;
+      Q l = qr(tw->lhsRational(i)), u = qr(tw->rhsRational(i));
+      // a long cannot hold every rational (e.g. the infinite side 1e100): such values are not judged
+      if(fitsLong(l))
+      {
+         if(mpz_class(p[0]) != l.get_num() || mpz_class(p[1]) != l.get_den()) return !bad(t, "left-hand side differs from lhsRational()");
+         if(l != lp.lhs[i]) return !bad(t, "left-hand side differs from the value passed in");
+      }
+      else ev().count("unjudged.rowboundsrational_does_not_fit_long");
+      if(fitsLong(u))
+      {
+         if(mpz_class(p[2]) != u.get_num() || mpz_class(p[3]) != u.get_den()) return !bad(t, "right-hand side differs from rhsRational()");
+         if(u != lp.rhs[i]) return !bad(t, "right-hand side differs from the value passed in");
+      }
+      else ev().count("unjudged.rowboundsrational_does_not_fit_long");
+      hadRat = true;
+      return true;
+   }
+   if(t == "getRowVectorRational")
+   {
+      const SVectorRational& ref = tw->rowVectorRational(i);
+      int rnz = ref.size();
+      if(rnz > 0 && known(K_ROWVECRAT))
+      {
+         ev().count(std::string("excluded_known.") + K_ROWVECRAT);
+         return true;
+      }
+      int len = rnz + (int) r.i(1);
+      Arr<int> nn(1, -77);
+      Arr<long> idx(len, -77L), cn(len, -77L), cd(len, -77L);
+      if(!both("getRowVectorRational", [&] { SoPlex_getRowVectorRational(h, i, nn.get(), idx.get(), cn.get(), cd.get()); }, [&] {})) return true;
+      ev().count(rnz == 0 ? "getrowrat.empty" : "getrowrat.nonempty");
+      if(nn.get()[0] != rnz) return !bad(t, "nnonzeros differs from the row size");
+      for(int k = 0; k < rnz; k++)
+      {
+         Q val = qr(ref.value(k));
+         long j = idx.get()[k];
+         if(j != ref.index(k)) return !bad(t, "index differs from rowVectorRational() of the twin");
+         if(!fitsLong(val))
+         {
+            ev().count("unjudged.rowvectorrational_does_not_fit_long");
+            continue;
+         }
+         if(mpz_class(cn.get()[k]) != val.get_num() || mpz_class(cd.get()[k]) != val.get_den()) return !bad(t, "coefficient differs from rowVectorRational() of the twin");
+         if(j < 0 || j >= n || val != lp.A[i][j]) return !bad(t, "coefficient differs from the value passed in");
+      }
+      if(!idx.unchangedFrom(rnz) || !cn.unchangedFrom(rnz) || !cd.unchangedFrom(rnz)) return !bad(t, "wrote beyond the row size");
+      hadRat = true;
+      return true;
+   }
+   return false;
+}
+
+// LP described by a readInstanceFile rec -> MPS text and the model it denotes
+static std::string mpsFromRec(const Rec& r, LP& out)
+{
+   int m = (int) std::max(0L, std::min(6L, r.i(1))), n = (int) std::max(1L, std::min(6L, r.i(2)));
+   int sense = r.i(3) == 1 ? 1 : -1;
+   auto p = [&](int k)
+   {
+      int len = (int) r.n() - 4;
+      return len <= 0 ? 0L : r.i(4 + k % len);
+   };
+   out = LP();
+   out.resize(m, n);
+   out.sense = sense;
+   // fixed MPS format (fields at columns 2, 5, 15, 25): short free-format lines (< 13 characters) are not parsed reliably
+   std::ostringstream rows, cols, rhs, bnd;
+   auto line = [](std::ostringstream & os, const char* f1, const std::string & f2, const std::string & f3, bool hasVal, long val)
+   {
+      char buf[128];
+      if(hasVal) snprintf(buf, sizeof buf, " %-2s %-8s  %-8s  %12ld\n", f1, f2.c_str(), f3.c_str(), val);
+      else snprintf(buf, sizeof buf, " %-2s %-8s  %-8s\n", f1, f2.c_str(), f3.c_str());
+      os << buf;
+   };
+   auto R_ = [](int i)
+   {
+      return "R" + std::to_string(i);
+   };
+   auto C_ = [](int j)
+   {
+      return "C" + std::to_string(j);
+   };
+   for(int i = 0; i < m; i++)
+   {
+      long ty = std::labs(p(i + 3)) % 3, b = p(i + 5);
+      char t1[2] = {"LGE"[ty], 0};
+      line(rows, t1, R_(i), "", false, 0);
+      out.lhs[i] = ty == 0 ? Q(-QINF()) : Q(b);
+      out.rhs[i] = ty == 1 ? QINF() : Q(b);
+      if(b != 0) line(rhs, "", "RHS", R_(i), true, b);
+   }
+   for(int j = 0; j < n; j++)
+   {
+      long c = p(j);
+      out.obj[j] = Q(c);
+      line(cols, "", C_(j), "OBJ", true, c);
+      for(int i = 0; i < m; i++)
+      {
+         long a = p(6 + i * n + j);
+         if(a % 2 != 0) a = 0;
+         out.A[i][j] = Q(a);
+         if(a != 0) line(cols, "", C_(j), R_(i), true, a);
+      }
+      long kind = std::labs(p(j + n)) % 5, a = p(2 * j + 1), b = p(2 * j + 2);
+      long lo = std::min(a, b), up = std::max(a, b);
+      switch(kind)
+      {
+      case 1:
+         line(bnd, "LO", "BND", C_(j), true, lo);
+         line(bnd, "UP", "BND", C_(j), true, up);
+         out.lo[j] = Q(lo);
+         out.up[j] = Q(up);
+         break;
+      case 2:
+         line(bnd, "FR", "BND", C_(j), false, 0);
+         out.lo[j] = Q(-QINF());
+         break;
+      case 3:
+         line(bnd, "FX", "BND", C_(j), true, a);
+         out.lo[j] = out.up[j] = Q(a);
+         break;
+      case 4:
+         line(bnd, "UP", "BND", C_(j), true, std::labs(a));
+         out.up[j] = Q(std::labs(a));
+         break;
+      default:
+         break;
+      }
+   }
+   std::ostringstream os;
+   os << "NAME          c20\nOBJSENSE\n    " << (sense == 1 ? "MAX" : "MIN") << "\nROWS\n N  OBJ\n" << rows.str() << "COLUMNS\n" << cols.str()
+      << "RHS\n" << rhs.str() << "BOUNDS\n" << bnd.str() << "ENDATA\n";
+   return os.str();
+}
+
+bool Runner::stepFiles(const Rec& r)
+{
+   const std::string& t = r.tag;
+   LP& lp = M.lp;
+   int m = lp.m(), n = lp.n();
+   if(t == "writeFileReal")
+   {
+      const char* ext = r.i(0) == 1 ? ".mps" : ".lp";
+      bool freeRow = false;
+      for(int i = 0; i < m; i++) if(isNInf(lp.lhs[i]) && isPInf(lp.rhs[i])) freeRow = true;
+      if(r.i(0) == 1 && freeRow)
+      {
+         ev().count("writemps_with_free_row");
+         if(known(K_MPSFREE))
+         {
+            ev().count(std::string("excluded_known.") + K_MPSFREE);
+            return true;
+         }
+      }
+      std::string f1 = path(ext), f2 = path(ext);
+      Arr<char> name(std::vector<char>(f1.c_str(), f1.c_str() + f1.size() + 1));
+      if(!both("writeFileReal", [&] { SoPlex_writeFileReal(h, name.get()); }, [&] { tw->writeFile(f2.c_str()); })) return true;
+      if(!name.unchanged()) return !bad(t, "file name modified");
+      bool o1, o2;
+      std::string s1 = slurp(f1, o1), s2 = slurp(f2, o2);
+      if(!o1 || s1.empty()) return !bad(t, "no file written");
+      if(s1 != s2) return !bad(t, "file differs from the file written by writeFile()");
+      ev().count(std::string("write") + ext);
+      return true;
+   }
+   if(t == "readInstanceFile")
+   {
+      int kind = (int) r.i(0);
+      if(kind == 1 && known(K_MISSING))
+      {
+         ev().count(std::string("excluded_known.") + K_MISSING);
+         return true;
+      }
+      LP flp;
+      std::string text = mpsFromRec(r, flp), f = path(".mps");
+      if(kind == 0) writeFile(f, text);
+      else if(kind == 2) writeFile(f, "this is not an LP\n");
+      Arr<char> name(std::vector<char>(f.c_str(), f.c_str() + f.size() + 1));
+      int a = -1;
+      bool b = false;
+      if(!both("readInstanceFile", [&] { a = SoPlex_readInstanceFile(h, name.get()); }, [&] { b = tw->readFile(f.c_str()); })) return true;
+      ev().count(std::string("readlp.") + (kind == 0 ? "valid" : kind == 1 ? "missing" : "malformed") + (co->intParam(SoPlex::READMODE) == SoPlex::READMODE_REAL ? ".real" : ".rational"));
+      if(a != (int) b) return !bad(t, "return value differs from readFile()");
+      if((a != 0) != (kind == 0)) return !bad(t, "return value does not tell whether the file could be read");
+      if(kind == 0)
+      {
+         Q off = lp.offset;
+         lp = flp;
+         lp.offset = off;
+         M.expI[SoPlex::OBJSENSE] = lp.sense;
+         hadAdd = true;
+      }
+      else
+      {
+         // what is left of the old LP after a failed read is undocumented: no claim, the model follows the object
+         anchor(*co, M);
+         ev().count("model.anchored_after_failed_read");
+      }
+      return true;
+   }
+   if(t == "readBasisFile")
+   {
+      int var = (int) r.i(0);
+      if(var == 3 && known(K_MISSING))
+      {
+         ev().count(std::string("excluded_known.") + K_MISSING);
+         return true;
+      }
+      if((var == 1 && (m == 0 || n == 0)) || (var == 2 && n == 0)) var = 0;
+      std::string body;
+      if(var == 1) body = std::string(" ") + (isFin(lp.rhs[0]) ? "XU" : "XL") + " x0 C0\n";
+      if(var == 2)
+      {
+         if(isFin(lp.lo[0])) body = " LL x0\n";
+         else if(isFin(lp.up[0])) body = " UL x0\n";
+         else var = 0;
+      }
+      std::string f = path(".bas");
+      if(var <= 2) writeFile(f, "NAME c20.bas\n" + body + "ENDATA\n");
+      else if(var == 4) writeFile(f, "garbage\n");
+      Arr<char> name(std::vector<char>(f.c_str(), f.c_str() + f.size() + 1));
+      int a = -1;
+      bool b = false;
+      if(!both("readBasisFile", [&] { a = SoPlex_readBasisFile(h, name.get()); }, [&] { b = tw->readBasisFile(f.c_str()); })) return true;
+      ev().count("readbas.variant" + std::to_string(var) + (a ? ".ok" : ".refused"));
+      if(a != (int) b) return !bad(t, "return value differs from readBasisFile()");
+      if((a != 0) != (var <= 2)) return !bad(t, "return value does not tell whether the basis could be read");
+      if(var == 1 && (int) co->basisColStatus(0) != (int) Solver::BASIC) return !bad(t, "column named basic in the file is not basic afterwards");
+      return true;
+   }
+   if(t == "readSettingsFile")
+   {
+      std::ostringstream os;
+      std::map<int, int> wi, wb;
+      std::map<int, double> wr;
+      bool missing = r.i(0) == 1;
+      if(missing && known(K_MISSING))
+      {
+         ev().count(std::string("excluded_known.") + K_MISSING);
+         return true;
+      }
+      for(size_t k = 1; k + 2 < r.n(); k += 3)
+      {
+         int ty = (int) r.i(k), code = (int) r.i(k + 1);
+         if(ty == 0)
+         {
+            if(code < 0 || code >= SoPlex::INTPARAM_COUNT || code == SoPlex::SYNCMODE) continue;
+            int val = (int) r.i(k + 2);
+            if(code == SoPlex::SIMPLIFIER && val == 3) continue;
+            os << "int:" << SoPlex::Settings::intParam.name[code] << " = " << val << "\n";
+            wi[code] = val;
+         }
+         else if(ty == 1)
+         {
+            if(code < 0 || code >= SoPlex::BOOLPARAM_COUNT) continue;
+            int val = r.i(k + 2) != 0;
+            os << "bool:" << SoPlex::Settings::boolParam.name[code] << " = " << (val ? "true" : "false") << "\n";
+            wb[code] = val;
+         }
+         else
+         {
+            if(code < 0 || code >= SoPlex::REALPARAM_COUNT) continue;
+            double val = dq(r.q(k + 2));
+            char buf[64];
+            snprintf(buf, sizeof buf, "%.17g", val);
+            os << "real:" << SoPlex::Settings::realParam.name[code] << " = " << buf << "\n";
+            wr[code] = val;
+         }
+      }
+      std::string f = path(".set");
+      if(!missing) writeFile(f, "# c20 settings\n" + os.str());
+      Arr<char> name(std::vector<char>(f.c_str(), f.c_str() + f.size() + 1));
+      int a = -1;
+      bool b = false;
+      if(!both("readSettingsFile", [&] { a = SoPlex_readSettingsFile(h, name.get()); }, [&] { b = tw->loadSettingsFile(f.c_str()); })) return true;
+      ev().count("readset.lines", (long)(wi.size() + wb.size() + wr.size()));
+      if(a != (int) b) return !bad(t, "return value differs from loadSettingsFile()");
+      if((a != 0) == missing) return !bad(t, "return value does not tell whether the settings file could be read");
+      if(missing) return true;
+      for(auto& kv : wi)
+      {
+         M.expI[kv.first] = kv.second;
+         if(kv.first == SoPlex::OBJSENSE) lp.sense = kv.second;
+      }
+      for(auto& kv : wb) M.expB[kv.first] = kv.second;
+      for(auto& kv : wr)
+      {
+         M.expR[kv.first] = kv.second;
+         if(kv.first == SoPlex::OBJ_OFFSET) lp.offset = qd(kv.second);
+      }
+      return true;
+   }
+   return false;
+}
+
+static Verdict run(const Case& c)
+{
+   Runner R_;
+   Evidence& e = ev();
+   if(opts().mode == "gen") R_.dir = opts().dir;
+   else
+   {
+      char tmpl[] = "/var/tmp/c20-replay-XXXXXX";
+      char* d = mkdtemp(tmpl);
+      R_.dir = d ? d : ".";
+      R_.ownDir = d != nullptr;
+   }
+   R_.create();
+   int steps = 0;
+   for(auto& r : c.recs)
+   {
+      if(r.tag == "x") continue;
+      R_.threw = false;
+      if(!R_.step(r) || !R_.v.ok) break;
+      if(R_.threw) anchor(*R_.co, R_.M);   // an exception escaped from both calls: no claim about the state
+      if(!R_.check(r.tag)) break;
+      steps++;
+   }
+   R_.destroy();
+   for(auto& f : R_.files) unlink(f.c_str());
+   if(R_.ownDir) rmdir(R_.dir.c_str());
+   e.count("steps", steps);
+   if(R_.hadRat) e.count("case.rational_entry_point");
+   if(R_.modAfterAdd) e.count("case.modification_after_add");
+   if(R_.solved && R_.queried) e.count("case.solve_then_queries");
+   R_.v.nontrivial = R_.hadRat && R_.modAfterAdd && R_.solved && R_.queried;
+   return R_.v;
+}
+
+int main(int argc, char** argv)
+{
+   return vfMain(argc, argv, "C20", gen, run);
+}
